@@ -131,13 +131,13 @@ PROPS = {
         title='Compiling any verified program returns Ok or Err and never panics or overruns',
         parts=[
             Part('wfwitness', lambda h: True, lambda h, c, info=None: True, 'vacuity guard (native, exhaustive over the opcodes): the opcode-specific precondition of every per-opcode harness is satisfiable'),
-            Part('jit', lambda h: h.startswith('arm_') or h.startswith('enc_') or h in ('resolve_jumps_contract', 'map_register_contract', 'epilogue_contract', 'two_pass_same_arguments', 'jit_memory_new_nostd') or h.startswith('prologue_') or h.startswith('jit_memory_size_'),
-                 lambda h, c, info=None: (in_file(c, 'src/jit.rs') and kani.is_panic_check(c)) or 'same arguments' in desc(c) or 'counting pass' in desc(c) or 'is refused' in desc(c) or 'suitable memory' in desc(c) or 'executable buffer is at least' in desc(c) or 'whole number of pages' in desc(c) or 'uses that same size' in desc(c) or (in_file(c, 'src/shadow.rs') and ('shadow Vec' in desc(c) or 'index out of bounds: the len' in desc(c)))
+            Part('jit', lambda h: h.startswith('arm_') or h.startswith('enc_') or h in ('resolve_jumps_contract', 'map_register_contract', 'epilogue_contract', 'two_pass_same_arguments', 'jit_memory_new_nostd', 'emit_bytes_contract') or h.startswith('prologue_') or h.startswith('jit_memory_size_'),
+                 lambda h, c, info=None: (in_file(c, 'src/jit.rs') and kani.is_panic_check(c)) or 'same arguments' in desc(c) or 'counting pass' in desc(c) or 'is refused' in desc(c) or 'suitable memory' in desc(c) or 'executable buffer is at least' in desc(c) or 'whole number of pages' in desc(c) or 'uses that same size' in desc(c) or 'offset advances by the operand size' in desc(c) or 'written little-endian at offset' in desc(c) or (in_file(c, 'src/shadow.rs') and ('shadow Vec' in desc(c) or 'index out of bounds: the len' in desc(c)))
                  or any(k in desc(c) for k in ('counting pass sizes', 'emitted bytes stay inside', 'fails only for an unregistered', 'both passes agree', 'pc_locs[pc]', 'resolve_jumps succeeds', 'pc_locs indexed', 'no other byte changes', 'rel32 =',
                                              'call target is pc+1+imm', 'next pc equals spec_step', 'every rel32 placeholder is recorded')),
                  'per opcode: no panic in the arm / encoders / map_register under the verifier facts; the counting pass (write_enabled = false) advances offset exactly like the emission pass (so the buffer sized by pass 1 fits pass 2 and the emit_bytes! assert is unreachable); compile error only for an unregistered helper; resolve_jumps indexes pc_locs in range and touches only the 4 displacement bytes'),
             Part('clif', lambda h: True,
-                 lambda h, c, info=None: (in_file(c, 'src/cranelift.rs') and kani.is_panic_check(c)) or 'placeholder message' in desc(c) or 'cranelift:' in desc(c) or 'cranelift verifier' in desc(c)
+                 lambda h, c, info=None: (in_file(c, 'src/cranelift.rs') and kani.is_panic_check(c)) or (h == 'clif_prepare_jump_blocks' and 'ensures:' in desc(c)) or 'placeholder message' in desc(c) or 'cranelift:' in desc(c) or 'cranelift verifier' in desc(c)
                  or any(k in desc(c) for k in ('every block', 'compiles', 'sealed and finalized', 'emitted into a block')),
                  'Cranelift: no panic in CraneliftCompiler::{new, compile_function, build_cfg, prepare_jump_blocks, prelude, translate_program} for a verified instruction; builder discipline (no instruction after a terminator, no unterminated block, operand types) which is what makes define_function().unwrap() succeed; BOUNDED: 3-instruction CFG shapes'),
         ],
